@@ -130,8 +130,11 @@ class UDPMessageSerializer:
             if fill_missing:
                 var_type = template_var.type
                 # Variable-length var, just leave it empty.
-                if var_type.size == -1:
+                if var_type == MsgType.MVT_VARIABLE:
                     var_data = b""
+                elif var_type == MsgType.MVT_FIXED:
+                    # The type itself has no size, the template says how wide the field is
+                    var_data = RawBytes(b"\x00" * template_var.size)
                 else:
                     var_data = RawBytes(b"\x00" * var_type.size)
             else:
